@@ -479,7 +479,9 @@ pub fn transport_fault(rng: &mut Rng, c: &mut Conn, enabled: &[&str]) {
         }
         "short_write" => {
             c.faults.cuts = match rng.below(3) {
-                0 => Cuts::Every(rng.range(1, 64)),
+                // (chunk sizes below 16 only on a share of runs: a 256 KiB file in 1-byte pieces
+                // costs several hundred thousand scheduler steps)
+                0 => Cuts::Every(if rng.chance(1, 4) { rng.range(1, 15) } else { rng.range(16, 4096) }),
                 1 => Cuts::At(vec![rng.range(1, 400)]),
                 _ => {
                     let mut v: Vec<usize> = (0..rng.range(2, 5)).map(|_| rng.range(1, 2000)).collect();
